@@ -56,6 +56,20 @@ CHECKS += [
     ),
 ]
 
+CHECKS += [
+    dict(
+        id="C07",
+        text="Thirteen structured formulas (two-sided, multi-part on either side, lhs=/rhs= keywords, tuples, nested keyword structure, root "
+             "plus key) with factors shared between parts x every null pattern with <= 2 (thorough 3) nulls over the 16 data cells x entry "
+             "points x outputs x index kinds.  The result and its spec must have the formula's nested shape, all parts the same rows and "
+             "index, every part must equal that part's terms built alone with the jointly dropped rows (reference null model) as drop set, "
+             "and every leaf spec must regenerate its part.",
+        design_ref="DESIGN.md section 3 C07",
+        note="Trusted: the joint-drop model for element-wise factors; part values come from a separate build by the same library "
+             "(differential), so this check decides shape, alignment and joint dropping.",
+    ),
+]
+
 ALL = ["C%02d" % i for i in range(1, 21)]
 _reason = "check not built yet in this revision (work in progress; see DESIGN.md section 3 for the planned bounded-exhaustive check)"
 NOT_APPLICABLE = [dict(property_id=i, reason=_reason) for i in ALL if i not in {c["id"] for c in CHECKS}]
